@@ -280,6 +280,9 @@ def run(ctx):
   bad['obs']['admitted'] = 0
   v = judge(ctx, [bad], 'negative control')
   ctx.negative_control('an admitted datapoint recorded as filtered', 'filtered-wrongly' in v[0])
+  # the periodic re-read of the file (Reload.tla): histories of rewrites, removals, restores with preserved times, failing ticks
+  from . import reloadsys
+  reloadsys.check(ctx, 'regexlist')
 
 
 def replay(ctx, rp):
